@@ -1,0 +1,14 @@
+//go:build verif
+
+package dvid
+
+// VerifPointFunc, when installed by a verification harness, is called at named
+// read-modify-write sites.  It may block (scheduler gate) or record an event.
+var VerifPointFunc func(site string, id uint64)
+
+// VerifPoint marks a linearization / interleaving point for model-based verification.
+func VerifPoint(site string, id uint64) {
+	if f := VerifPointFunc; f != nil {
+		f(site, id)
+	}
+}
